@@ -360,7 +360,7 @@ structure MergeOut where
   docs : Option (List Node)          -- the documents written (only with exit status 0)
   toFile : Bool                      -- into OUTPUT / OVERWRITE instead of standard output
   backup : Bool                      -- `OVERWRITE.bak` holds the former content
-  deriving Repr, Inhabited
+  deriving DecidableEq, Repr, Inhabited
 
 /-- The streams `main()` reads: the positional files, then the implicit standard input. -/
 def mergeInputs (a : MergeArgs) (tty : Bool) (loads : List (Option (List Node)))
